@@ -32,11 +32,17 @@ _PARSERS = {}
 _COUNT = [0]
 
 
-def L(text, expand_includes=False, include_position=False, include_comments=False, fn=None):
+_INC = re.compile(r"(?im)^\s*include")
+
+
+def L(text, expand_includes=None, include_position=False, include_comments=False, fn=None):
     """loads() with the Parser reused across calls (building the Lark grammar dominates the run time of loads);
     every 40th call goes through the real mappyfile.loads so that the public entry point stays in the loop"""
     from mappyfile.parser import Parser
     from mappyfile.transformer import MapfileToDict
+    if expand_includes is None:
+        # the API default is to expand; texts that carry INCLUDE lines of files we do not have are kept as data
+        expand_includes = not _INC.search(text)
     _COUNT[0] += 1
     if _COUNT[0] % 40 == 0 and fn is None:
         return api().loads(text, expand_includes=expand_includes, include_position=include_position, include_comments=include_comments)
